@@ -91,6 +91,11 @@ class MultiCrossBlockRepeat(Block):
 
         crossings = [c for c in crossings if len(c) > 0]
 
+        # Each block records its trial-window geometry in its constraints, so
+        # work on copies: the caller's constraint objects can then be given to
+        # other blocks (of other lengths) as well.
+        constraints = [copy.copy(ct) for ct in constraints]
+
         from sweetpea._internal.constraint import Cross, Consistency, Sustain
         from sweetpea._internal.derivation_processor import DerivationProcessor
         self.orig_design = design
